@@ -28,9 +28,12 @@ type PermCase struct {
 	InPlace     bool                   `json:"inPlace,omitempty"` // native code deletes/overwrites in the map it is given (like bs.Remove)
 	Direct      bool                   `json:"direct,omitempty"` // call Action.Exec directly instead of Spec.Step
 	Default     bool                   `json:"default,omitempty"`
+	// PatternVar: the guarded branch has a pattern that binds a variable
+	// with a permanent name from the bindings ({"x": "?p!"})
+	PatternVar bool `json:"patternVar,omitempty"`
 }
 
-var permKeys = []string{"cfg!", "id!", "!", "a!b!", "x", "y", "n", "!lead"}
+var permKeys = []string{"cfg!", "id!", "!", "a!b!", "x", "y", "n", "!lead", "?p!"}
 
 func genPerm(t *rapid.T) PermCase {
 	c := PermCase{Bs: map[string]interface{}{}}
@@ -55,6 +58,13 @@ func genPerm(t *rapid.T) PermCase {
 	c.ErrBranches = rapid.Bool().Draw(t, "eb")
 	c.ErrNode = rapid.SampledFrom([]string{"", "aerr", "aerr"}).Draw(t, "en")
 	c.Default = rapid.Bool().Draw(t, "def")
+	if c.Guard != nil && rapid.IntRange(0, 2).Draw(t, "pv") == 0 {
+		c.PatternVar = true
+		if _, have := c.Bs["x"]; !have {
+			c.Bs["x"] = jsongen.Value(t, jsongen.Opts{Depth: 1, Width: 2}, "pvx")
+		}
+		delete(c.Bs, "?p!")
+	}
 	c.InPlace = (c.Native || c.GuardNative) && rapid.Bool().Draw(t, "inplace")
 	c.Direct = c.Guard == nil && rapid.IntRange(0, 3).Draw(t, "direct") == 0
 	return c
@@ -63,7 +73,11 @@ func genPerm(t *rapid.T) PermCase {
 func (c PermCase) spec() *sm.ASpec {
 	n := &sm.ANode{Action: c.Action, ActionNative: c.Native, InPlace: c.InPlace, BranchType: "bindings"}
 	if c.Guard != nil {
-		n.Branches = append(n.Branches, sm.ABranch{Guard: c.Guard, GuardNative: c.GuardNative, GuardInPlace: c.InPlace, Target: "n1"})
+		b := sm.ABranch{Guard: c.Guard, GuardNative: c.GuardNative, GuardInPlace: c.InPlace, Target: "n1"}
+		if c.PatternVar {
+			b.HasPattern, b.Pattern = true, map[string]interface{}{"x": "?p!"}
+		}
+		n.Branches = append(n.Branches, b)
 	}
 	if c.Default || c.Guard == nil {
 		n.Branches = append(n.Branches, sm.ABranch{Target: "n2"})
